@@ -4,8 +4,18 @@ Schema tuples:  ('U',typ,fixed_len|None) ('B',typ) ('Y',typ,is_string) ('N',typ)
                 ('R',elem) ('P',key,val) ('K',)
 Value tuples :  None | ('u',int) | ('b',) | ('y',bytes) | ('n',[bytes]) | ('m',[values]) | ('l',[values]) | ('p',[(k,v)])
 """
-from ndn.encoding import tlv_model as tm
-from ndn.encoding import Name
+
+
+class _Lazy:
+    """the library's tlv_model module, imported on first use (building / reading TlvModel objects happens on the
+    run_impl side; the case generators below - random_schema / random_value / random_comp / ref_encode - are plain
+    data and never touch the library, so that a defect there is a verdict of the check, not a crash of a generator)"""
+    def __getattr__(self, k):
+        from ndn.encoding import tlv_model
+        return getattr(tlv_model, k)
+
+
+tm = _Lazy()
 
 
 def field_schema(f):
@@ -150,6 +160,7 @@ def from_py(s, pv):
     if k == 'Y':
         return ('y', pv.encode('utf-8') if isinstance(pv, str) else bytes(pv))
     if k == 'N':
+        from ndn.encoding import Name
         return ('n', [bytes(c) for c in Name.normalize(pv)])
     if k == 'M':
         return ('m', from_instance(s[3], pv))
@@ -287,11 +298,16 @@ def random_text(rng):
     return ''.join(rng.choice(TEXT_BITS) for _ in range(rng.randint(0, 6))).encode('utf-8')
 
 
+def gen_comp(v, t=8):
+    """one encoded name component, written from the NDN packet format (Type, Length, Value), not with the library"""
+    v = bytes(v)
+    return tl(t) + tl(len(v)) + v
+
+
 def random_comp(rng):
-    from ndn.encoding import Component
     t = rng.choice([8, 8, 8, 1, 2, 32, 50, 253, 65535])
     n = 32 if t in (1, 2) else rng.choice([0, 1, 3, 10])
-    return bytes(Component.from_bytes(bytes(rng.getrandbits(8) for _ in range(n)), t))
+    return gen_comp(bytes(rng.getrandbits(8) for _ in range(n)), t)
 
 
 def random_value(rng, s, present=0.8, big=False):
@@ -325,10 +341,9 @@ def random_value(rng, s, present=0.8, big=False):
     if k == 'N':
         if rng.random() < 0.15:
             # total size near the point where the Name's Length (or an enclosing one) changes form
-            from ndn.encoding import Component
             total = rng.choice([250, 251, 252, 253, 254, 255, 256]) + rng.choice([-4, 0, 0, 3])
             n = total - 2 if total - 2 < 253 else total - 4
-            return ('n', [random_comp(rng), bytes(Component.from_bytes(bytes(rng.getrandbits(8) for _ in range(max(n, 0))), 8))][rng.choice([0, 1]):])
+            return ('n', [random_comp(rng), gen_comp(bytes(rng.getrandbits(8) for _ in range(max(n, 0))), 8)][rng.choice([0, 1]):])
         return ('n', [random_comp(rng) for _ in range(rng.choice([0, 1, 2, 4]))])
     if k == 'M':
         return ('m', [random_value(rng, x, present, big) for x in s[3]])
